@@ -165,6 +165,24 @@ func (l c12) Exec(env *core.Env) *core.Result {
 			}
 		}
 	}
+	// valid signatures with a good RFC 3161 countersignature (in-simulation TSA), and the TSA's root in a tsa store
+	tsa := world.NewTSA(world.TSAOpts{Tag: "c12", NotBefore: time.Now().Add(-24 * time.Hour), NotAfter: time.Now().Add(20 * 365 * 24 * time.Hour)})
+	store.Put("tsa", "t", tsa.Root.Cert)
+	for _, f := range world.Formats {
+		envl, err := signature.ParseEnvelope(f, validSigs["oci"+f])
+		if err != nil {
+			continue
+		}
+		content, err := envl.Content()
+		if err != nil {
+			continue
+		}
+		if tok, err := tsa.TokenOver(content.SignerInfo.Signature); err == nil {
+			if out, ok := world.SetTimestampSignature(f, validSigs["oci"+f], tok); ok {
+				validSigs["ts"+f] = out
+			}
+		}
+	}
 	// restore the directory globals afterwards
 	oldCfg, oldLib, oldCache := dir.UserConfigDir, dir.UserLibexecDir, dir.UserCacheDir
 	defer func() { dir.UserConfigDir, dir.UserLibexecDir, dir.UserCacheDir = oldCfg, oldLib, oldCache }()
@@ -182,7 +200,9 @@ func (l c12) Exec(env *core.Env) *core.Result {
 			seed, a, b, c := op.Int(0), op.Int(1), op.Int(2), op.Int(3)
 			switch op.Kind {
 			case "verify", "verifyplugin":
-				construction := a % 6 // 0 both 1 OCI-only 2 blob-only 3 nil manager(both) 4 skip statements 5 both, audit
+				// 0 both 1 OCI-only 2 blob-only 3 nil manager(both) 4 skip statements 5 both, audit
+				// 6 the deprecated revocation client and nothing else, tsa store listed 7 no validator supplied at all, tsa store listed
+				construction := a % 8
 				levels := []string{"strict", "permissive", "audit", "skip"}
 				level := levels[b%4]
 				if construction == 4 {
@@ -193,6 +213,17 @@ func (l c12) Exec(env *core.Env) *core.Result {
 					stores, ids = nil, nil
 				}
 				opts := verifier.VerifierOptions{RevocationCodeSigningValidator: &world.ScriptedValidator{}, RevocationTimestampingValidator: &world.ScriptedValidator{}}
+				if construction >= 6 {
+					// the library supplies whatever the caller left out (its default validators only go to the
+					// network for certificates that name an OCSP / CRL endpoint; the simulated PKI names none)
+					opts = verifier.VerifierOptions{}
+					if construction == 6 {
+						opts.RevocationClient = world.LegacyClient{V: &world.ScriptedValidator{}}
+					}
+					if level != "skip" {
+						stores = []string{"ca:s", "tsa:t"}
+					}
+				}
 				if construction != 2 {
 					opts.OCITrustPolicy = world.OCIDoc(world.Statement("p", level, nil, stores, ids, []string{"*"}))
 				}
@@ -248,6 +279,14 @@ func (l c12) Exec(env *core.Env) *core.Result {
 					if len(sig) == 0 {
 						sig = []byte{byte(seed)}
 					}
+				case construction >= 6 && validSigs["ts"+format] != nil:
+					// a timestamped signature (mostly intact) against a policy that lists a tsa store
+					entry = entry % 3
+					if entry == 1 {
+						entry = 0
+					}
+					sig = mutateBytes(validSigs["ts"+format], seed, int(b%7)/3)
+					res.Probe("timestamped_signature_with_library_supplied_validators")
 				default:
 					kind := "oci"
 					if entry == 1 || entry == 3 {
